@@ -123,10 +123,12 @@ class ThreadSched:
     a preemption point (or finishes); when the decision is "keep running" no OS-level switch
     happens at all, which keeps a sweep of thousands of schedules cheap."""
 
-    def __init__(self, filename, lines, lock_of, inner=frozenset()):
+    def __init__(self, filename, lines, lock_of, inner=frozenset(), more=None):
         self.filename = filename
         self.lines = lines
         self.inner = inner
+        self.more = more or {}
+        self._more_tracers = {fn: self._make_tracer(ls) for fn, ls in self.more.items()}
         self.lock_of = lock_of                # () -> CoopLock
         self.local = threading.local()
 
@@ -135,14 +137,24 @@ class ThreadSched:
 
     # -- inside managed threads
     def _global_trace(self, frame, event, arg):
-        if frame.f_code.co_filename == self.filename:
+        fn = frame.f_code.co_filename
+        if fn == self.filename:
             return self._local_trace
+        if fn in self.more:                   # further traced files: {filename: set of lines}
+            return self._more_tracers[fn]
         return None
 
     def _local_trace(self, frame, event, arg):
         if event == 'line' and frame.f_lineno in self.lines:
             self.yield_baton(self.local.tid, line=frame.f_lineno)
         return self._local_trace
+
+    def _make_tracer(self, lines):
+        def tr(frame, event, arg):
+            if event == 'line' and frame.f_lineno in lines:
+                self.yield_baton(self.local.tid, line=-frame.f_lineno)
+            return tr
+        return tr
 
     def _decide(self, cur):
         """next thread to run (None: all done or deadlock); records the choice point"""
@@ -556,6 +568,8 @@ def asgi_scope(rq):
         headers += [(b'content-type', b'application/json'), (b'content-length', str(len(rq['body'])).encode())]
     if rq.get('accept'):
         headers.append((b'accept', rq['accept'].encode()))
+    if rq.get('cookie'):
+        headers.append((b'cookie', rq['cookie'].encode()))
     return {'type': 'http', 'asgi': {'version': '3.0'}, 'http_version': '1.1', 'method': rq['method'],
             'scheme': 'http', 'path': rq['path'], 'raw_path': rq['path'].encode(),
             'query_string': rq.get('qs', '').encode(), 'headers': headers, 'server': ('h', 80),
@@ -675,6 +689,449 @@ def asgi_sweep(ctx, spec, requests, max_preempt, limit, tag, decisions_only=None
     return n
 
 
+# ------------------------------------------------------------------ marking apps
+# Every per-request object the framework hands out is WRITTEN with a request-unique mark by
+# middleware / responders / error handlers and READ back later in the same request; the response
+# reports what was found.  Marks are unique per process, so a mark of any other request
+# (concurrent, earlier on the same app, or earlier in the process) is a foreign mark.
+
+MARK_RX = re.compile(r'(?i)mk(\d+)z')
+_mark_no = itertools.count(1)
+
+
+def new_mark():
+    return 'mk%07dz' % next(_mark_no)          # fixed width: lengths (Content-Length) do not depend on the mark
+
+
+class ErrA(Exception):
+    pass
+
+
+class ErrB(Exception):
+    pass
+
+
+class ErrC(ErrA):
+    pass
+
+
+def _keys(obj):
+    try:
+        return sorted(str(k) for k in obj.keys())
+    except Exception:
+        return sorted(vars(obj))
+
+
+def mark_request(req, resp, asgi):
+    m = req.get_header('X-Rid')
+    setattr(req.context, 'c_' + m, m)
+    setattr(resp.context, 'r_' + m, m)
+    req.params['p_' + m] = m
+    (req.scope if asgi else req.env)['x.' + m] = m
+    h = req.headers
+    h['X-INJ-' + m.upper()] = m
+    c = req.cookies
+    c['ck_' + m] = m
+    resp.set_header('X-Mark-' + m, m)
+    return m
+
+
+def report(req, resp, kw, asgi, extra=None):
+    out = {
+        'kw': sorted((k, str(v)) for k, v in kw.items()),
+        'params': sorted((k, str(v)) for k, v in req.params.items()),
+        'ctx': _keys(req.context), 'rctx': _keys(resp.context),
+        'env': sorted(k for k in (req.scope if asgi else req.env) if str(k).startswith('x.')),
+        'hdr': sorted(k for k in req.headers if k.upper().startswith('X-INJ')),
+        'cookies': sorted(req.cookies),
+        'resp_hdr': sorted(k for k in resp.headers if k.lower().startswith('x-mark')),
+        'q': req.get_param('q'), 'rid': req.get_header('X-Rid'),
+    }
+    if extra:
+        out.update(extra)
+    return out
+
+
+def build_marking_app(falcon, asgi):
+    import falcon.asgi
+
+    if asgi:
+        class Mw:
+            async def process_request(self, req, resp):
+                mark_request(req, resp, True)
+                await Suspend()
+
+            async def process_resource(self, req, resp, resource, params):
+                m = req.get_header('X-Rid')
+                params['inj_' + m] = m                  # inject a responder kwarg
+                await Suspend()
+
+            async def process_response(self, req, resp, resource, ok):
+                await Suspend()
+                resp.set_header('X-Ctx', ','.join(_keys(req.context)))
+                resp.set_header('X-Rctx', ','.join(_keys(resp.context)))
+                resp.set_header('X-Params', ','.join(sorted(req.params)))
+
+        class Thing:
+            async def on_get(self, req, resp, **kw):
+                await Suspend()
+                resp.media = report(req, resp, kw, True)
+
+            async def on_post(self, req, resp, **kw):
+                m = req.get_header('X-Rid')
+                media = await req.get_media()
+                media['w_' + m] = m
+                await Suspend()
+                again = await req.get_media()
+                resp.media = report(req, resp, kw, True, {'media': sorted(again)})
+
+        class Fail:
+            async def on_get(self, req, resp, kind, **kw):
+                m = req.get_header('X-Rid')
+                await Suspend()
+                if kind == 'a':
+                    raise ErrA(m)
+                if kind == 'b':
+                    raise ErrB(m)
+                if kind == 'c':
+                    raise ErrC(m)
+                raise falcon.HTTPTooManyRequests(title=m, description='d' + m, headers={'X-Err-' + m: m})
+
+        def handler(tag, status):
+            async def h(req, resp, ex, params):
+                await Suspend()
+                resp.status = status
+                resp.media = report(req, resp, params, True, {'handler': tag, 'ex': str(ex)})
+            return h
+        app = falcon.asgi.App(middleware=[Mw()])
+    else:
+        class Mw:
+            def process_request(self, req, resp):
+                mark_request(req, resp, False)
+
+            def process_resource(self, req, resp, resource, params):
+                m = req.get_header('X-Rid')
+                params['inj_' + m] = m
+
+            def process_response(self, req, resp, resource, ok):
+                resp.set_header('X-Ctx', ','.join(_keys(req.context)))
+                resp.set_header('X-Rctx', ','.join(_keys(resp.context)))
+                resp.set_header('X-Params', ','.join(sorted(req.params)))
+
+        class Thing:
+            def on_get(self, req, resp, **kw):
+                resp.media = report(req, resp, kw, False)
+
+            def on_post(self, req, resp, **kw):
+                m = req.get_header('X-Rid')
+                media = req.get_media()
+                media['w_' + m] = m
+                again = req.get_media()
+                resp.media = report(req, resp, kw, False, {'media': sorted(again)})
+
+        class Fail:
+            def on_get(self, req, resp, kind, **kw):
+                m = req.get_header('X-Rid')
+                if kind == 'a':
+                    raise ErrA(m)
+                if kind == 'b':
+                    raise ErrB(m)
+                if kind == 'c':
+                    raise ErrC(m)
+                raise falcon.HTTPTooManyRequests(title=m, description='d' + m, headers={'X-Err-' + m: m})
+
+        def handler(tag, status):
+            def h(req, resp, ex, params):
+                resp.status = status
+                resp.media = report(req, resp, params, False, {'handler': tag, 'ex': str(ex)})
+            return h
+        from falcon.routing import compiled
+        app = falcon.App(middleware=[Mw()], router=compiled.CompiledRouter())
+    thing = Thing()
+    app.add_route('/static', thing)
+    app.add_route('/static/deep', thing)
+    app.add_route('/items/{id:int}', thing)
+    app.add_route('/u/{name}/f/{p:path}', thing)
+    app.add_route('/err/{kind}', Fail())
+    app.add_error_handler(ErrA, handler('A', falcon.HTTP_429))
+    app.add_error_handler(ErrB, handler('B', falcon.HTTP_503))
+    return app
+
+
+MARK_REQUESTS = [
+    {'method': 'GET', 'path': '/static'},
+    {'method': 'GET', 'path': '/static', 'qs': 'q=1'},
+    {'method': 'GET', 'path': '/static/deep'},
+    {'method': 'GET', 'path': '/items/7'},
+    {'method': 'GET', 'path': '/items/7', 'qs': 'q=x&z=2'},
+    {'method': 'POST', 'path': '/items/9', 'body': '{"k": 1}'},
+    {'method': 'POST', 'path': '/static', 'body': '{"a": {"b": 2}}', 'qs': 'q=p'},
+    {'method': 'GET', 'path': '/u/bob/f/a/b'},
+    {'method': 'GET', 'path': '/err/a'},
+    {'method': 'GET', 'path': '/err/b'},
+    {'method': 'GET', 'path': '/err/c', 'qs': 'q=e'},
+    {'method': 'GET', 'path': '/err/http'},
+    {'method': 'GET', 'path': '/nope'},
+    {'method': 'PUT', 'path': '/static'},
+]
+
+
+def with_marks(reqs):
+    out = []
+    for r in reqs:
+        r = dict(r)
+        r['rid'] = new_mark()
+        out.append(r)
+    return out
+
+
+def normalize(text, marks):
+    """replace the scenario's own marks by their request index; whatever mark remains is foreign"""
+    idx = {MARK_RX.match(m).group(1): i for i, m in enumerate(marks)}
+    return MARK_RX.sub(lambda mo: '@%d@' % idx[mo.group(1)] if mo.group(1) in idx else mo.group(0), text)
+
+
+def wsgi_call(testing, app, rq):
+    hdrs = {'X-Rid': rq['rid'], 'Cookie': 'sess=%s' % rq['rid']}
+    if rq.get('body') is not None:
+        hdrs['Content-Type'] = 'application/json'
+    r = testing.simulate_request(app, method=rq['method'], path=rq['path'], query_string=rq.get('qs', ''),
+                                 headers=hdrs, body=rq.get('body'))
+    return json.dumps([r.status_code, sorted((k.lower(), v) for k, v in r.headers.items()), r.text])
+
+
+def asgi_mark_call(app, rq):
+    rq2 = dict(rq)
+    coro, sent = asgi_call(app, rq2)
+    return coro, sent
+
+
+def own_only(text, k):
+    """the response of request k may only mention request k"""
+    return set(re.findall(r'@(\d+)@', text)) <= {str(k)}
+
+
+def judge_marks(ctx, detail, results, reference, marks, where):
+    """results/reference: raw response texts per request.  Binding: no foreign mark, only the own
+    mark, and equality with the isolated reference after normalisation."""
+    for k, (got, want) in enumerate(zip(results, reference)):
+        g = normalize(got, marks)
+        if MARK_RX.search(g):
+            ctx.violation('foreign-mark', dict(detail, request=k, where=where, response=g[:1500],
+                                               what='the response shows a mark of a request outside this scenario '
+                                                    '(state kept from an earlier request)'), key='mark-foreign')
+            return False
+        if not own_only(g, k):
+            ctx.violation('foreign-mark', dict(detail, request=k, where=where, response=g[:1500],
+                                               what='the response shows the mark of another request'),
+                          key='mark-other')
+            return False
+        if want is not None and g != want:
+            ctx.violation('concurrent-response-differs', dict(detail, request=k, where=where, concurrent=g[:1500],
+                                                               serial=want[:1500]), key='mark-differs')
+            return False
+    return True
+
+
+def isolated_reference(falcon, testing, reqs, asgi):
+    """each request alone on its own fresh app, normalised (None when that already leaks)"""
+    marks = [r['rid'] for r in reqs]
+    out = []
+    for k, rq in enumerate(reqs):
+        app = build_marking_app(falcon, asgi)
+        if asgi:
+            coro, sent = asgi_call(app, asgi_req(rq))
+            try:
+                while True:
+                    coro.send(None)
+            except StopIteration:
+                pass
+            raw = json.dumps(canon_sent(sent))
+        else:
+            raw = wsgi_call(testing, app, rq)
+        out.append(normalize(raw, marks))
+    return out
+
+
+def asgi_req(rq):
+    return {'method': rq['method'], 'path': rq['path'], 'qs': rq.get('qs', ''), 'rid': rq['rid'],
+            'body': rq.get('body'), 'split': False, 'cookie': 'sess=%s' % rq['rid']}
+
+
+def consecutive_check(ctx, asgi, reqs, tag):
+    """request k on an app that has already served requests 0..k-1 (and the same URIs before)"""
+    import falcon
+    from falcon import testing
+    reqs = with_marks(reqs)
+    marks = [r['rid'] for r in reqs]
+    ref = isolated_reference(falcon, testing, reqs, asgi)
+    app = build_marking_app(falcon, asgi)
+    res = []
+    for rq in reqs:
+        if asgi:
+            coro, sent = asgi_call(app, asgi_req(rq))
+            try:
+                while True:
+                    coro.send(None)
+            except StopIteration:
+                pass
+            res.append(json.dumps(canon_sent(sent)))
+        else:
+            res.append(wsgi_call(testing, app, rq))
+    detail = {'mode': 'marks-consecutive', 'asgi': asgi, 'requests': [dict(r, rid=None) for r in reqs], 'tag': tag}
+    # the isolated references themselves must be clean too (process-wide leaks)
+    ok = judge_marks(ctx, detail, [r for r in ref], [None] * len(ref), [], 'isolated') if False else True
+    for k, r in enumerate(ref):
+        if MARK_RX.search(r) or not own_only(r, k):
+            ctx.violation('foreign-mark', dict(detail, request=k, where='isolated fresh app', response=r[:1500]),
+                          key='mark-foreign')
+            ok = False
+            break
+    if ok:
+        judge_marks(ctx, detail, res, ref, marks, 'consecutive')
+    ctx.count('consecutive-requests', len(reqs))
+    ctx.note_case((tag, 'consecutive', asgi, json.dumps([(r['method'], r['path'], r.get('qs')) for r in reqs])), True)
+
+
+def mark_thread_sweep(ctx, reqs, max_preempt, limit, tag, deadline=None, warm=None, decisions_only=None):
+    """2-3 WSGI requests on one marking app in managed threads; preemption at every executed line
+    of app.py / compiled.py that mentions `self._`"""
+    import falcon
+    from falcon import testing
+    from falcon.routing import compiled
+    reqs = with_marks(reqs)
+    marks = [r['rid'] for r in reqs]
+    ref = isolated_reference(falcon, testing, reqs, False)
+    state = {}
+    warm = warm or []
+
+    def run_schedule(decisions):
+        app = build_marking_app(falcon, False)
+        for w in with_marks(warm):                      # earlier traffic: compiles the router, fills caches
+            wsgi_call(testing, app, w)
+        sched = ThreadSched(compiled.__file__, mark_thread_sweep.lines[compiled.__file__],
+                            lambda: state.get('lock'), more={k: v for k, v in mark_thread_sweep.lines.items()
+                                                             if k != compiled.__file__})
+        lock = CoopLock(sched)
+        state['lock'] = lock
+        app._router._compile_lock = lock
+        fns = [(lambda rq=rq: wsgi_call(testing, app, rq)) for rq in reqs]
+        try:
+            trace, res = sched.run(fns, decisions)
+            dead = False
+        except Deadlock as d:
+            trace, res, dead = d.args[0], list(sched.results), True
+        post = []
+        if not dead:                                    # the same requests again, after the race
+            for rq in reqs:
+                rq2 = dict(rq, rid=new_mark())
+                post.append((rq2['rid'], safe(lambda rq2=rq2: wsgi_call(testing, app, rq2))))
+        return trace, (res, dead, post)
+
+    n = 0
+    it = [(decisions_only, run_schedule(decisions_only)[1])] if decisions_only is not None else \
+        explore(run_schedule, max_preempt, limit)
+    for decisions, (res, dead, post) in it:
+        n += 1
+        if deadline is not None and time.time() > deadline:
+            ctx.count('sweeps-cut-by-deadline')
+            break
+        detail = {'mode': 'marks-threads', 'requests': [dict(r, rid=None) for r in reqs], 'warm': warm,
+                  'decisions': {str(k): v for k, v in decisions.items()}, 'tag': tag}
+        if dead:
+            ctx.violation('deadlock', detail, key='deadlock')
+            continue
+        texts = [r[1] if r[0] == 'ok' else json.dumps(['exception', r[1]]) for r in res]
+        if judge_marks(ctx, detail, texts, ref, marks, 'threads'):
+            for k, (mk, r) in enumerate(post):
+                t = r[1] if r[0] == 'ok' else json.dumps(['exception', r[1]])
+                g = normalize(t, [mk]).replace('@0@', '@%d@' % k)
+                if g != ref[k]:
+                    ctx.violation('response-after-race-differs',
+                                  dict(detail, request=k, after_race=g[:1500], serial=ref[k][:1500]), key='mark-post')
+                    break
+        ctx.count('mark-thread-schedules')
+    ctx.note_case((tag, 'mark-threads', json.dumps([(r['method'], r['path'], r.get('qs')) for r in reqs])), True)
+    return n
+
+
+def mark_asgi_sweep(ctx, reqs, max_preempt, limit, tag, deadline=None, warm=None, decisions_only=None):
+    import falcon
+    from falcon import testing
+    reqs = with_marks(reqs)
+    marks = [r['rid'] for r in reqs]
+    ref = isolated_reference(falcon, testing, reqs, True)
+    warm = warm or []
+
+    def run_schedule(decisions):
+        app = build_marking_app(falcon, True)
+        for w in with_marks(warm):
+            c, _ = asgi_call(app, asgi_req(w))
+            try:
+                while True:
+                    c.send(None)
+            except StopIteration:
+                pass
+        coros, sents = [], []
+        for rq in reqs:
+            c, sn = asgi_call(app, asgi_req(rq))
+            coros.append(c)
+            sents.append(sn)
+        done = [False] * len(coros)
+        errs = [None] * len(coros)
+        trace, cur, step = [], None, 0
+        while not all(done):
+            enabled = tuple(i for i in range(len(coros)) if not done[i])
+            c = cur if cur is not None and not done[cur] else None
+            nxt = choose(decisions, step, c, enabled)
+            trace.append((c, enabled, nxt))
+            step += 1
+            cur = nxt
+            try:
+                coros[nxt].send(None)
+            except StopIteration:
+                done[nxt] = True
+            except BaseException as e:  # noqa
+                done[nxt] = True
+                errs[nxt] = type(e).__name__ + ': ' + str(e)[:160]
+        return trace, [json.dumps(['exception', errs[i]]) if errs[i] else json.dumps(canon_sent(sents[i]))
+                       for i in range(len(coros))]
+
+    n = 0
+    it = [(decisions_only, run_schedule(decisions_only)[1])] if decisions_only is not None else \
+        explore(run_schedule, max_preempt, limit)
+    for decisions, texts in it:
+        n += 1
+        if deadline is not None and time.time() > deadline:
+            ctx.count('sweeps-cut-by-deadline')
+            break
+        detail = {'mode': 'marks-asgi', 'requests': [dict(r, rid=None) for r in reqs], 'warm': warm,
+                  'decisions': {str(k): v for k, v in decisions.items()}, 'tag': tag}
+        judge_marks(ctx, detail, texts, ref, marks, 'asgi tasks')
+        ctx.count('mark-asgi-schedules')
+    ctx.note_case((tag, 'mark-asgi', json.dumps([(r['method'], r['path'], r.get('qs')) for r in reqs])), True)
+    return n
+
+
+def setup_app_lines():
+    """executed-line candidates beyond the router: every line of falcon/app.py, falcon/asgi/app.py and
+    routing/compiled.py that mentions `self._` (recomputed from the staged source on every run)"""
+    import falcon.app
+    import falcon.asgi.app
+    from falcon.routing import compiled
+    out = {}
+    for mod in (falcon.app, falcon.asgi.app, compiled):
+        ls = set()
+        with open(mod.__file__, encoding='utf-8') as fh:
+            for no, line in enumerate(fh, 1):
+                t = line.strip()
+                if t and not t.startswith('#') and 'self._' in t.split('  # ')[0]:
+                    ls.add(no)
+        out[mod.__file__] = ls
+    mark_thread_sweep.lines = out
+    return out
+
+
 # ------------------------------------------------------------------ entry points
 
 def setup_lines():
@@ -723,11 +1180,11 @@ def main(ctx):
     # loaded machine, so a sweep that overruns its allotment is cut (counted in the distribution)
     T = (lambda q, t: time.time() + (q if quick else t))
     # --- threads, router level: all schedules with <= 2 preemptions
-    dl = T(40, 500)
+    dl = T(30, 500)
     for tpls in sets[:2 if quick else len(sets)]:
         thread_sweep(ctx, model, tpls, 2, 2, None, 'thr2', deadline=dl)
     # deeper along the protocol: <= 3 preemptions of which at most one inside _generate_ast
-    dl = T(50, 900)
+    dl = T(40, 900)
     for tpls in ([['/x/{a:int}']] if quick else [['/x/{a:int}']] + [t[:2] for t in sets[:3]]):
         thread_sweep(ctx, model, tpls, 2, 3, None if quick else 40000, 'thr2-proto3', max_inner=1, deadline=dl)
     dl = T(14, 400)
@@ -744,9 +1201,33 @@ def main(ctx):
         app_sweep(ctx, tpls, 2, 1 if quick else 2, 150 if quick else 3000, 'app2', deadline=dl)
     if not quick:
         app_sweep(ctx, sets[0], 3, 2, 3000, 'app3', deadline=T(0, 200))
-    # --- ASGI
-    dl = T(30, 600)
-    n_apps = 24 if quick else 120
+    # --- marking apps: every per-request object written and read back, unique marks
+    setup_app_lines()
+    R = MARK_REQUESTS
+    seqs = [R, rng.sample(R, len(R)) + rng.sample(R, len(R))]
+    for asgi in (False, True):
+        for i, sq in enumerate(seqs if quick else seqs + [rng.sample(R * 3, len(R) * 3)]):
+            consecutive_check(ctx, asgi, sq, 'cons%d' % i)
+    pairs = [([R[8], R[9]], [R[0]]), ([R[10], R[9]], []), ([R[0], R[0]], [R[0]]), ([R[4], R[3]], [R[3]]),
+             ([R[5], R[1]], []), ([R[11], R[8]], [R[8]]), ([R[2], R[7]], [R[2]])]
+    dl = T(25, 400)
+    for reqs, warm in pairs:
+        mark_thread_sweep(ctx, reqs, 1 if quick else 2, None if quick else 4000, 'mthr2', deadline=dl, warm=warm)
+    if not quick:
+        mark_thread_sweep(ctx, [R[8], R[9], R[10]], 2, 4000, 'mthr3', deadline=T(0, 200), warm=[R[0]])
+        for _ in range(6):
+            mark_thread_sweep(ctx, rng.sample(R, 2), 1, None, 'mthr2r', deadline=T(0, 60), warm=rng.sample(R, 1))
+    dl = T(20, 400)
+    apairs = [([R[0], R[0]], [R[0]]), ([R[0], R[2]], []), ([R[4], R[3]], []), ([R[8], R[9]], []), ([R[5], R[6]], []),
+              ([R[11], R[10]], [R[2]]), ([R[7], R[0]], [R[7]])]
+    for reqs, warm in apairs:
+        mark_asgi_sweep(ctx, reqs, 2 if quick else 3, 1200 if quick else 8000, 'masgi2', deadline=dl, warm=warm)
+    if not quick:
+        for _ in range(10):
+            mark_asgi_sweep(ctx, rng.sample(R, 3), 2, 6000, 'masgi3', deadline=T(0, 300), warm=rng.sample(R, 1))
+    # --- ASGI, generated apps
+    dl = T(15, 500)
+    n_apps = 12 if quick else 120
     for i in range(n_apps):
         if time.time() > dl:
             break
@@ -768,5 +1249,12 @@ def replay(ctx, obj):
                      decisions_only=dec, paths=(obj['thread_paths'], obj['post_paths']))
     elif mode == 'asgi':
         asgi_sweep(ctx, obj['spec'], obj['requests'], 0, None, 'replay', decisions_only=dec)
+    elif mode == 'marks-threads':
+        setup_app_lines()
+        mark_thread_sweep(ctx, obj['requests'], 0, None, 'replay', warm=obj.get('warm'), decisions_only=dec)
+    elif mode == 'marks-asgi':
+        mark_asgi_sweep(ctx, obj['requests'], 0, None, 'replay', warm=obj.get('warm'), decisions_only=dec)
+    elif mode == 'marks-consecutive':
+        consecutive_check(ctx, obj['asgi'], obj['requests'], 'replay')
     else:
         main(ctx)
